@@ -34,9 +34,9 @@ func init() {
 		ID:    "C09",
 		Level: "exploration",
 		Race:  true,
-		Rule: "(a) runs of N=8..64 goroutines sending requests to one server (13 operations: path/query/header/array/body parameters, two path parameters in one segment, typed array parameters with declared defaults that most requests leave out, OR and AND security requirements, an operation whose two alternatives have different scopes and can be satisfied at once, two produces, a Responder result, a 204 and a HEAD operation, consumers that stamp their media type; handlers that normalise the slices they are handed in place), each request carrying a unique token in every position; the same registrations are served by two handler instances, middleware.NewContext over the untyped API and middleware.NewRoutableContext over a RoutableAPI whose operation handlers run RouteInfo, Authorize, BindValidRequest, handler, Respond (APIHandler), each request going to one of them; a quarter of the requests are driven accessor by accessor (RouteInfo, Authorize, BindAndValidate on the first — or, for half of them, BindValidRequest with a binder of its own, then Respond, on the second) and read back the stored principal, scopes and matched route; a fifth are served inside a wrapping middleware that asks RouteInfo first, serves the request value it was returned and reads the route again (and asks again) when the handler has returned, or (half of them) authenticates in front of the handler: it takes the route from RouteInfo or from a LookupRoute of its own, asks Authorize and lets the handler serve the request value Authorize returned, two thirds of the X-Key credentials being one-time keys (accepted by their authenticator once: a request admitted in front must not be answered 401 inside); about a quarter of the requests must be refused (unacceptable Accept, non-admitted or malformed Content-Type, missing/ill-typed required query parameter, rejected credential, no credentials, a principal the authorizer refuses, unknown path, undeclared method), each judged by its expected status and by the operation handler not having run for its token; some served requests are answered by the handler's own error; a served request is served by the handler of its own operation; per run, route lookups that found a route <= requests that have one, request validations <= requests bound through BindAndValidate, and no request reaches a Builder middleware or a generated handler without its matched route; " +
+		Rule: "(a) runs of N=8..64 goroutines sending requests to one server (13 operations: path/query/header/array/body parameters, two path parameters in one segment, typed array parameters with declared defaults that most requests leave out, OR and AND security requirements, an operation whose two alternatives have different scopes and can be satisfied at once, two produces, a Responder result, a 204 and a HEAD operation, two operations bound from a form body — urlencoded or multipart with a file, the multipart-only one requiring its file —, consumers that stamp their media type; handlers that normalise the slices they are handed in place), each request carrying a unique token in every position; the same registrations are served by two handler instances, middleware.NewContext over the untyped API and middleware.NewRoutableContext over a RoutableAPI whose operation handlers run RouteInfo, Authorize, BindValidRequest, handler, Respond (APIHandler), each request going to one of them; a quarter of the requests are driven accessor by accessor (RouteInfo, Authorize, BindAndValidate on the first — or, for half of them, BindValidRequest with a binder of its own, then Respond, on the second) and read back the stored principal, scopes and matched route; a fifth are served inside a wrapping middleware that asks RouteInfo first, serves the request value it was returned and reads the route again (and asks again) when the handler has returned, or (half of them) authenticates in front of the handler: it takes the route from RouteInfo or from a LookupRoute of its own, asks Authorize and lets the handler serve the request value Authorize returned, two thirds of the X-Key credentials being one-time keys (accepted by their authenticator once: a request admitted in front must not be answered 401 inside); about a quarter of the requests must be refused (unacceptable Accept, non-admitted or malformed Content-Type, missing/ill-typed required query parameter, rejected credential, no credentials, a principal the authorizer refuses, unknown path, undeclared method), each judged by its expected status and by the operation handler not having run for its token; some served requests are answered by the handler's own error; a served request is served by the handler of its own operation; a quarter of the requests (half of the form requests) meet, when the untyped handler serves them, a Builder middleware that asks BindAndValidate and hands the request value it was returned on to the operation (judged by the answer and by the validation count), and every direct flow on the untyped Context asks BindAndValidate a second time on the returned request value (same outcome, same values); per run, route lookups that found a route <= requests that have one, request validations <= requests bound through BindAndValidate, and no request reaches a Builder middleware or a generated handler without its matched route; " +
 			"GOMAXPROCS in {1,2,4,16}; a PRNG-driven hook callback yields/sleeps at the inter-stage suspension points and records the hook trace; built with -race. " +
-			"(b) random sequences (<=18, with repetition) over RouteInfo/ContentType/ResponseFormat/Authorize/BindAndValidate/ResetAuth/Respond (and BindValidRequest into a parameter struct for body-less requests) on one request (its own token per sequence; key / one-time key / bearer / both / bad / nil-principal / refused-by-the-authorizer / no credentials; binding outcomes valid, 415, and invalid for validation reasons only), on either Context, threading the returned request, judged by a 5-flag reference state machine over authenticator/consumer/lookup/validation/body-read counters; the first answer of each stage is judged against the request's own values (ContentType: media type and charset, both compared on every later ask; RouteInfo: pattern, operation, parameters, compared on every later ask), the Content-Type header is rewritten after its first parse and the first BindAndValidate after it must judge the body by the parsed value, Respond after a successful negotiation must answer in that format whatever list it is handed, a third of the sequences end with the whole handler serving the threaded request value (no lookup, no authenticator call after a principal, no second consumer run or validation after a binding; the route reads the same afterwards) followed by the askers again, the MatchedRoute value handed to Authorize/BindAndValidate/BindValidRequest/Respond next to the threaded request value is, for a quarter of these calls, another one of the same request than the earlier calls were handed (a fresh LookupRoute, MatchedRouteFrom or RouteInfo on the threaded request value), a quarter of the sequences never ask RouteInfo first (LookupRoute instead), an eighth are an authentication middleware in front of the handler (route by either way, Authorize, then the whole handler serves the returned request value: no authenticator call, no 401 for a one-time key), and a third of the sequences are preceded by the same request asked once and another client's request to the same operation (the grant must not change). " +
+			"(b) random sequences (<=18, with repetition) over RouteInfo/ContentType/ResponseFormat/Authorize/BindAndValidate/ResetAuth/Respond (and BindValidRequest into a parameter struct for body-less requests) on one request (its own token per sequence; key / one-time key / bearer / both / bad / nil-principal / refused-by-the-authorizer / no credentials; binding outcomes valid, 415, and invalid for validation reasons only), on either Context, threading the returned request, judged by a 5-flag reference state machine over authenticator/consumer/lookup/validation/body-read counters; the first answer of each stage is judged against the request's own values (ContentType: media type and charset, both compared on every later ask; RouteInfo: pattern, operation, parameters, compared on every later ask), the Content-Type header is rewritten after its first parse and the first BindAndValidate after it must judge the body by the parsed value, Respond after a successful negotiation must answer in that format whatever list it is handed, a third of the sequences end with the whole handler serving the threaded request value (no lookup, no authenticator call after a principal, no second consumer run or validation after a binding; the route reads the same afterwards) followed by the askers again, the MatchedRoute value handed to Authorize/BindAndValidate/BindValidRequest/Respond next to the threaded request value is, for a quarter of these calls, another one of the same request than the earlier calls were handed (a fresh LookupRoute, MatchedRouteFrom or RouteInfo on the threaded request value), a quarter of the sequences never ask RouteInfo first (LookupRoute instead), an eighth are an authentication middleware in front of the handler (route by either way, Authorize, then the whole handler serves the returned request value: no authenticator call, no 401 for a one-time key), a fifth of the sequences are about the form operations (form content type mostly, the required field or file left out for some; a memoised binding reads the body no more, whoever asks — BindAndValidate or the handler; the Content-Type header of a form request is not rewritten), a third of the handler steps run behind the validating Builder middleware (one validation per request inside the handler), and a third of the sequences are preceded by the same request asked once and another client's request to the same operation (the grant must not change). " +
 			"non-trivial = (a) a run in which >= 2 requests were in flight at once (measured), distinct by hook-trace hash; (b) a sequence with >= 1 repeated accessor, distinct by (request shape, sequence); a worker in which fewer than half of the concurrent runs overlapped counts none of its sequences",
 		Assumptions: []string{
 			"isolation is judged by token equality on everything observable: MatchedRoute params seen by a Builder wrapper, the principal shown to the authorizer, bound values, selected producer/content type echoed in the response",
@@ -101,6 +101,16 @@ func apiDesc() gen.Desc {
 			// answers without a body: 204, HEAD
 			{ID: "delN", Method: "DELETE", Template: "/n/{id}", Params: []gen.Param{pathP("id")}, SuccessCode: 204},
 			{ID: "headH", Method: "HEAD", Template: "/h/{id}", Params: []gen.Param{pathP("id"), str("q", "query")}},
+			// bound from a form body, urlencoded or multipart (with an optional file): no consumer decodes it, the
+			// form is parsed off the request value the binding works on
+			{ID: "postF", Method: "POST", Template: "/f/{id}", Consumes: []string{formURLEncoded, formMultipart},
+				Params: []gen.Param{pathP("id"), req("name", "formData"),
+					{Name: "age", In: "formData", Type: "integer", Format: "int32"},
+					{Name: "doc", In: "formData", Type: "file"}}},
+			// multipart only, the file is required
+			{ID: "postU", Method: "POST", Template: "/u/{id}", Consumes: []string{formMultipart},
+				Params: []gen.Param{pathP("id"), str("name", "formData"),
+					{Name: "doc", In: "formData", Type: "file", Required: true}}},
 		},
 	}
 	return d
@@ -111,6 +121,100 @@ func apiDesc() gen.Desc {
 func declTags() []interface{}   { return []interface{}{"zebra", "Apple"} }
 func declSizes() []interface{}  { return []interface{}{30, 10, 20} }
 func declLabels() []interface{} { return []interface{}{"m", "K", "b"} }
+
+const (
+	formURLEncoded = "application/x-www-form-urlencoded"
+	formMultipart  = "multipart/form-data"
+	// the boundary of every multipart body the harness sends
+	formBoundary = "c09XXboundary"
+)
+
+// isFormOp: the operations bound from a form body.
+func isFormOp(op string) bool { return op == "postF" || op == "postU" }
+
+// formBody renders the form of one request: name (left out when name is ""), age (left out when < 0) and — in a
+// multipart form — the file doc (left out when file is "").
+func formBody(kind, name string, age int, file string) string {
+	if kind != "multipart" {
+		q := url.Values{}
+		if name != "" {
+			q.Set("name", name)
+		}
+		if age >= 0 {
+			q.Set("age", fmt.Sprint(age))
+		}
+		return q.Encode()
+	}
+	var sb strings.Builder
+	part := func(disp, val string) {
+		sb.WriteString("--" + formBoundary + "\r\nContent-Disposition: form-data; " + disp + "\r\n\r\n" + val + "\r\n")
+	}
+	if name != "" {
+		part(`name="name"`, name)
+	}
+	if file != "" {
+		sb.WriteString("--" + formBoundary + "\r\nContent-Disposition: form-data; name=\"doc\"; filename=\"doc.txt\"\r\nContent-Type: text/plain\r\n\r\n" + file + "\r\n")
+	}
+	if age >= 0 {
+		part(`name="age"`, fmt.Sprint(age))
+	}
+	sb.WriteString("--" + formBoundary + "--\r\n")
+	return sb.String()
+}
+
+// formContentType: the Content-Type header of a form of that kind.
+func formContentType(kind string) string {
+	if kind == "multipart" {
+		return formMultipart + "; boundary=" + formBoundary
+	}
+	return formURLEncoded
+}
+
+// fileText reads an uploaded file from its start (whoever was handed the bound values before may have read it).
+func fileText(f rt.File) string {
+	if f.Data == nil {
+		return ""
+	}
+	if _, err := f.Data.Seek(0, io.SeekStart); err != nil {
+		return "<seek: " + err.Error() + ">"
+	}
+	b, err := io.ReadAll(f.Data)
+	if err != nil {
+		return "<read: " + err.Error() + ">"
+	}
+	return string(b)
+}
+
+// boundText renders bound values for comparison: an uploaded file by its name, size and content, everything else
+// as fmt prints it (maps in key order).
+func boundText(bound interface{}) string {
+	bm, ok := bound.(map[string]interface{})
+	if !ok {
+		return fmt.Sprint(bound)
+	}
+	hasFile := false
+	for _, v := range bm {
+		if _, isFile := v.(rt.File); isFile {
+			hasFile = true
+		}
+	}
+	if !hasFile {
+		return fmt.Sprint(bound)
+	}
+	cp := make(map[string]interface{}, len(bm))
+	for k, v := range bm {
+		if f, isFile := v.(rt.File); isFile {
+			if f.Header != nil {
+				cp[k] = fmt.Sprintf("file(%q, %d bytes, %q)", f.Header.Filename, f.Header.Size, fileText(f))
+			} else {
+				cp[k] = fmt.Sprintf("file(no header, %q)", fileText(f))
+			}
+			continue
+		}
+		cp[k] = v
+	}
+	return fmt.Sprint(cp)
+}
 
 const (
 	declTagsText   = "zebra,Apple"
@@ -244,6 +348,14 @@ func buildServer() (*server, error) {
 			return nil
 		}))
 	}
+	// a form body is parsed by the binding itself: the consumers registered for the form media types decode nothing
+	// (they are counted like the others: a run of one of them reads the body)
+	for _, mt := range []string{formURLEncoded, formMultipart} {
+		api.RegisterConsumer(mt, rt.ConsumerFunc(func(r io.Reader, v interface{}) error {
+			atomic.AddInt64(&s.consumed, 1)
+			return rt.DiscardConsumer.Consume(r, v)
+		}))
+	}
 	api.RegisterProducer("application/json", rt.ProducerFunc(func(w io.Writer, v interface{}) error {
 		b, err := json.Marshal(map[string]interface{}{"tag": "json", "v": v})
 		if err != nil {
@@ -326,34 +438,17 @@ func buildServer() (*server, error) {
 			return s.operate(op.ID, pm)
 		}))
 	}
-	builder := func(next http.Handler) http.Handler {
-		return http.HandlerFunc(func(w http.ResponseWriter, r *http.Request) {
-			want := r.Header.Get("X-Token")
-			mr := middleware.MatchedRouteFrom(r)
-			if mr == nil && want != "" {
-				// a Builder middleware runs for routed requests only, inside the router: the request it is handed
-				// is the one the route lookup returned
-				s.unrouted.add(fmt.Sprintf("builder: %s %s (token %q) carries no matched route", r.Method, r.URL.RequestURI(), want))
-			}
-			if mr != nil && want != "" {
-				for _, p := range mr.Params {
-					if tokenOf(p.Value) != want {
-						s.xt.add(fmt.Sprintf("builder: request of token %q has matched-route param %s=%q", want, p.Name, p.Value))
-					}
-				}
-				if !strings.HasPrefix(r.URL.Path, strings.SplitN(mr.PathPattern, "{", 2)[0]) {
-					s.xt.add(fmt.Sprintf("builder: request %q matched pattern %q", r.URL.Path, mr.PathPattern))
-				}
-				// (a request whose route an accessor sequence has already asked about says so: X-Asked)
-				if (mr.Consumer != nil || mr.Authenticator != nil) && r.Header.Get("X-Asked") == "" {
-					s.xt.add(fmt.Sprintf("builder: fresh matched route of %q already has consumer/authenticator set", r.URL.Path))
-				}
-			}
-			next.ServeHTTP(w, r)
-		})
+	// validating: the Context whose BindAndValidate the middleware asks for the requests marked X-Validate (an audit
+	// log, a quota by parameter, ...) before it hands the request value it was returned on to the operation, which is
+	// a later asker of the binding; nil: the middleware never validates (the operations of the generated-server
+	// Context bind with BindValidRequest, which keeps no result)
+	mkBuilder := func(validating func() *middleware.Context) middleware.Builder {
+		return func(next http.Handler) http.Handler {
+			return builderHandler(s, validating, next)
+		}
 	}
 	s.ctx = middleware.NewContext(doc, api, nil)
-	s.handler = s.ctx.RoutesHandler(builder)
+	s.handler = s.ctx.RoutesHandler(mkBuilder(func() *middleware.Context { return s.ctx }))
 
 	// the same registrations behind the constructor generated servers use
 	s.gapi = gen.NewGeneratedAPI(api)
@@ -376,8 +471,43 @@ func buildServer() (*server, error) {
 	}
 	s.gctx = middleware.NewRoutableContext(doc, s.gapi, nil)
 	s.gapi.SetContext(s.gctx)
-	s.ghandler = s.gctx.APIHandler(builder)
+	s.ghandler = s.gctx.APIHandler(mkBuilder(nil))
 	return s, nil
+}
+
+// builderHandler is the middleware installed through the Builder of RoutesHandler / APIHandler: it runs for routed
+// requests only, between the router and the operation.
+func builderHandler(s *server, validating func() *middleware.Context, next http.Handler) http.Handler {
+	return http.HandlerFunc(func(w http.ResponseWriter, r *http.Request) {
+		want := r.Header.Get("X-Token")
+		mr := middleware.MatchedRouteFrom(r)
+		if mr == nil && want != "" {
+			// a Builder middleware runs for routed requests only, inside the router: the request it is handed
+			// is the one the route lookup returned
+			s.unrouted.add(fmt.Sprintf("builder: %s %s (token %q) carries no matched route", r.Method, r.URL.RequestURI(), want))
+		}
+		if mr != nil && want != "" {
+			for _, p := range mr.Params {
+				if tokenOf(p.Value) != want {
+					s.xt.add(fmt.Sprintf("builder: request of token %q has matched-route param %s=%q", want, p.Name, p.Value))
+				}
+			}
+			if !strings.HasPrefix(r.URL.Path, strings.SplitN(mr.PathPattern, "{", 2)[0]) {
+				s.xt.add(fmt.Sprintf("builder: request %q matched pattern %q", r.URL.Path, mr.PathPattern))
+			}
+			// (a request whose route an accessor sequence has already asked about says so: X-Asked)
+			if (mr.Consumer != nil || mr.Authenticator != nil) && r.Header.Get("X-Asked") == "" {
+				s.xt.add(fmt.Sprintf("builder: fresh matched route of %q already has consumer/authenticator set", r.URL.Path))
+			}
+		}
+		if mr != nil && validating != nil && r.Header.Get("X-Validate") != "" {
+			// whatever the outcome, it is the operation that answers: the middleware only looks
+			if _, r2, _ := validating().BindAndValidate(r, mr); r2 != nil {
+				r = r2
+			}
+		}
+		next.ServeHTTP(w, r)
+	})
 }
 
 // operate is the application's handler of every operation: it reports the values it was handed, as they were
@@ -415,6 +545,9 @@ func takeAndNormalise(pm map[string]interface{}) map[string]interface{} {
 		case []int32:
 			seen[k] = append([]int32{}, x...)
 			sort.Slice(x, func(i, j int) bool { return x[i] < x[j] })
+		case rt.File:
+			// an uploaded file is reported by its content
+			seen[k] = fileText(x)
 		default:
 			seen[k] = v
 		}
@@ -511,7 +644,7 @@ var refusalStatus = map[string][]int{
 
 func mkRequest(r *rand.Rand, token string) *reqSpec {
 	ops := []string{"getA", "postA", "putB", "delA", "getB", "postW", "postE", "postE", "getS", "getS", "postV",
-		"getC", "getC", "getD", "getD", "getD", "delN", "headH"}
+		"getC", "getC", "getD", "getD", "getD", "delN", "headH", "postF", "postF", "postU"}
 	op := ops[r.Intn(len(ops))]
 	acc := []string{"application/json", "text/plain"}[r.Intn(2)]
 	rs := &reqSpec{op: op, token: token, accept: acc, expect: map[string]string{}}
@@ -523,9 +656,10 @@ func mkRequest(r *rand.Rand, token string) *reqSpec {
 	// the same routes
 	if r.Intn(4) == 0 {
 		rs.refuse = []string{"accept", "ct", "ctbad", "query", "query", "cred", "path", "method", "deny"}[r.Intn(9)]
-		hasBody := op == "postA" || op == "postE" || op == "postW" || op == "postV"
+		hasBody := op == "postA" || op == "postE" || op == "postW" || op == "postV" || isFormOp(op)
 		hasCred := op == "getA" || op == "postA" || op == "delA" || op == "getB" || op == "postE"
-		hasReqQuery := op == "postV" || op == "getA" || op == "getS" || op == "getC"
+		// (the refusal class "query" of a form operation: the required form field / file is left out)
+		hasReqQuery := op == "postV" || op == "getA" || op == "getS" || op == "getC" || isFormOp(op)
 		switch {
 		case (rs.refuse == "ct" || rs.refuse == "ctbad") && !hasBody,
 			rs.refuse == "query" && !hasReqQuery,
@@ -684,6 +818,39 @@ func mkRequest(r *rand.Rand, token string) *reqSpec {
 			rs.expect["X-L"] = v("l2") + "," + v("l1")
 		}
 		rs.expect["id"] = v("id")
+	case "postF", "postU":
+		// a form body: urlencoded or multipart (postU: multipart only), the multipart ones with a file
+		kind := "multipart"
+		if op == "postF" && r.Intn(2) == 0 {
+			kind = "urlencoded"
+		}
+		name, age, file := v("name"), r.Intn(1000), ""
+		if kind == "multipart" && (op == "postU" || r.Intn(3) != 0) {
+			file = "file of " + v("doc")
+		}
+		if r.Intn(4) == 0 || op == "postU" {
+			age = -1 // optional, left out
+		}
+		if rs.refuse == "query" {
+			if op == "postU" {
+				file = ""
+			} else {
+				name = ""
+			}
+		}
+		req = httptest.NewRequest("POST", "/api/"+map[string]string{"postF": "f", "postU": "u"}[op]+"/"+url.PathEscape(v("id")), strings.NewReader(formBody(kind, name, age, file)))
+		rs.ct = formContentType(kind)
+		req.Header.Set("Content-Type", rs.ct)
+		rs.expect["id"] = v("id")
+		if name != "" {
+			rs.expect["name"] = name
+		}
+		if file != "" {
+			rs.expect["doc"] = file
+		}
+		if op == "postF" && age >= 0 {
+			rs.expect["age"] = fmt.Sprint(age) // (what an optional parameter without a default is bound to when left out is not judged)
+		}
 	case "delN":
 		req = httptest.NewRequest("DELETE", "/api/n/"+url.PathEscape(v("id")), nil)
 		rs.expect["id"] = v("id")
@@ -692,6 +859,11 @@ func mkRequest(r *rand.Rand, token string) *reqSpec {
 		rs.expect["id"], rs.expect["q"] = v("id"), v("q")
 	}
 	req.Header.Set("X-Token", token)
+	// half of the form requests and a quarter of the others meet, when the untyped handler serves them, a validating
+	// middleware in front of their operation (decided by the token)
+	if vh := (th >> 24) % 4; vh == 0 || (vh == 1 && isFormOp(op)) {
+		req.Header.Set("X-Validate", "1")
+	}
 	// the same negotiated type asked in several spellings, some sharing their first header line with a
 	// request that negotiates the other type
 	other := map[string]string{"application/json": "text/plain", "text/plain": "application/json"}[acc]
@@ -828,6 +1000,8 @@ func judgeBound(rs *reqSpec, bound map[string]interface{}) string {
 				l = append(l, fmt.Sprint(e))
 			}
 			gs = strings.Join(l, ",")
+		case rt.File:
+			gs = fileText(x)
 		default:
 			gs = fmt.Sprint(got)
 		}
@@ -944,8 +1118,18 @@ func (s *server) directFlow(rs *reqSpec) string {
 		bm = gp.bound
 	} else {
 		var bound interface{}
-		bound, _, err = ctx.BindAndValidate(cur, rr)
+		var r3 *http.Request
+		bound, r3, err = ctx.BindAndValidate(cur, rr)
 		bm, _ = bound.(map[string]interface{})
+		// a later asker holding the request value the binding returned (the operation behind a validating
+		// middleware) is told the same outcome, valid or not
+		if r3 != nil {
+			es, bs := errText(err), boundText(bound)
+			bound2, _, err2 := ctx.BindAndValidate(r3, rr)
+			if es2, bs2 := errText(err2), boundText(bound2); es2 != es || bs2 != bs {
+				return sigMark("binding-memo-differs/direct-flow") + fmt.Sprintf("BindAndValidate on the request value the first BindAndValidate returned: (%.200s, %.200q), first (%.200s, %.200q)", bs2, es2, bs, es)
+			}
+		}
 	}
 	switch rs.refuse {
 	case "accept", "ct", "ctbad", "query":
@@ -977,6 +1161,13 @@ func (s *server) directFlow(rs *reqSpec) string {
 	}
 	ctx.Respond(rec, cur, rr.Produces, rr, data)
 	return judgeResponse(rs, rec)
+}
+
+func errText(err error) string {
+	if err == nil {
+		return ""
+	}
+	return err.Error()
 }
 
 // judgeRoute: the matched route is the one of this request's operation, with this request's path values.
@@ -1249,6 +1440,12 @@ func runConcurrentOnce(m *mon.M, cfg *RunCfg, salt int64) (overlap bool) {
 				if rs.wrapped && rs.front && !rs.direct {
 					nByClass["authenticated-in-front-of-the-handler"]++
 				}
+				if isFormOp(rs.op) && rs.refuse == "" {
+					nByClass["form-binding"]++
+				}
+				if !rs.direct && !rs.routable && rs.req.Header.Get("X-Validate") != "" && rs.refuse != "path" && rs.refuse != "method" {
+					nByClass["validated-in-front-of-the-operation"]++
+				}
 				if msg != "" {
 					flow := "served"
 					switch {
@@ -1327,7 +1524,7 @@ func runConcurrentOnce(m *mon.M, cfg *RunCfg, salt int64) (overlap bool) {
 	for class, n := range nByClass {
 		switch class {
 		case "":
-		case "handler-error", "no-body-answer", "authenticated-in-front-of-the-handler":
+		case "handler-error", "no-body-answer", "authenticated-in-front-of-the-handler", "form-binding", "validated-in-front-of-the-operation":
 			m.Note("concurrent_"+class, n)
 		default:
 			m.Note("concurrent_refusals_"+class, n)
@@ -1393,6 +1590,13 @@ type SeqCase struct {
 	Routable bool `json:"routable,omitempty"`
 	// StructBind: step G binds into a parameter struct
 	StructBind bool `json:"structBind,omitempty"`
+	// Form (postF, postU): the body is a form of this kind: urlencoded | multipart (with a file); FormLacks: the
+	// required form field (postU: the required file) is left out
+	Form      string `json:"form,omitempty"`
+	FormLacks bool   `json:"formLacks,omitempty"`
+	// ValidateInFront: when step S serves the request, a middleware between the router and the operation asks
+	// BindAndValidate and hands the request value it was returned on to the operation
+	ValidateInFront bool `json:"validateInFront,omitempty"`
 
 	// quiet: the sequence is judged but not counted as non-trivial (see run)
 	quiet bool
@@ -1459,10 +1663,25 @@ func seqRequest(sc *SeqCase, token, cred string, withBody bool) (*http.Request, 
 		default:
 			target += "?n=7"
 		}
+	case "postF", "postU":
+		method = "POST"
+		target = "/api/" + map[string]string{"postF": "f", "postU": "u"}[sc.Op] + "/" + v("id") + esc
 	default:
 		target = "/api/a/" + v("id") + esc + "?q=" + v("q")
 	}
-	if withBody {
+	if withBody && isFormOp(sc.Op) {
+		name, file := v("name"), "file of "+v("doc")
+		if sc.FormLacks && sc.Op == "postF" {
+			name = ""
+		}
+		if sc.FormLacks && sc.Op == "postU" {
+			file = ""
+		}
+		text := formBody(sc.Form, name, 36, file)
+		cb = &countingBody{r: strings.NewReader(text)}
+		req = httptest.NewRequest(method, target, cb)
+		req.ContentLength = int64(len(text)) // (a form comes with its length; the JSON bodies come without)
+	} else if withBody {
 		cb = &countingBody{r: strings.NewReader(fmt.Sprintf(`{"t":%q}`, token))}
 		req = httptest.NewRequest(method, target, cb)
 		req.ContentLength = -1 // unknown length: the body itself is probed
@@ -1506,11 +1725,13 @@ func seqRequest(sc *SeqCase, token, cred string, withBody bool) (*http.Request, 
 
 // ctParsed: what the Content-Type headers of the sequence generator say (media type, charset).
 var ctParsed = map[string][2]string{
-	"application/json":                          {"application/json", ""},
-	"application/json; charset=utf-8":           {"application/json", "utf-8"},
-	"text/plain":                                {"text/plain", ""},
-	"text/plain;charset=ISO-8859-1":             {"text/plain", "ISO-8859-1"},
-	"Application/JSON; Charset=\"utf-16\"; q=1": {"application/json", "utf-16"},
+	"application/json":                           {"application/json", ""},
+	"application/json; charset=utf-8":            {"application/json", "utf-8"},
+	"text/plain":                                 {"text/plain", ""},
+	"text/plain;charset=ISO-8859-1":              {"text/plain", "ISO-8859-1"},
+	"Application/JSON; Charset=\"utf-16\"; q=1":  {"application/json", "utf-16"},
+	formURLEncoded:                               {formURLEncoded, ""},
+	formMultipart + "; boundary=" + formBoundary: {formMultipart, ""},
 }
 
 func scopeString(r *http.Request) string {
@@ -1615,8 +1836,16 @@ func runSequence(m *mon.M, s *server, sc *SeqCase, cfg *RunCfg) {
 	freshRoute := false
 	// frontFlow: the handler served a request value that carried a principal and no route (authenticated in front of it)
 	frontFlow := false
+	// formBound: a first BindAndValidate bound a form, validly
+	formBound := false
+	// ctBeforeBind: ContentType had answered on the threaded request value before the first BindAndValidate
+	ctBeforeBind := false
 	for i, st := range sc.Steps {
 		before := struct{ l, a, c, v int64 }{atomic.LoadInt64(&lookups), atomic.LoadInt64(&s.authCalls), atomic.LoadInt64(&s.consumed), atomic.LoadInt64(&validations)}
+		readsBefore := 0
+		if cb != nil {
+			readsBefore = cb.reads
+		}
 		var stepErr interface{}
 		switch st {
 		case "R":
@@ -1863,9 +2092,17 @@ func runSequence(m *mon.M, s *server, sc *SeqCase, cfg *RunCfg) {
 			}
 			stepErr, _ = mon.Catch(func() {
 				cur.Header.Set("X-Asked", "1")
+				if sc.ValidateInFront {
+					cur.Header.Set("X-Validate", "1")
+				}
 				rec := httptest.NewRecorder()
 				handler.ServeHTTP(rec, cur)
 				served = true
+				if !sc.Routable && atomic.LoadInt64(&validations)-before.v > 1 {
+					// whoever asks first inside the handler (a validating middleware, the operation), every later one
+					// holds the request value the first was returned
+					fail("binding-recomputed/inside-the-handler", fmt.Sprintf("step %d the handler validated one request %d times (validating middleware in front of the operation: %v); answered %d %.100q", i, atomic.LoadInt64(&validations)-before.v, sc.ValidateInFront, rec.Code, rec.Body.String()))
+				}
 				if routeMemo && atomic.LoadInt64(&lookups) != before.l {
 					fail("route-recomputed/by-the-handler", fmt.Sprintf("step %d the handler looked the route up again for a request value that carries it", i))
 				}
@@ -1892,6 +2129,9 @@ func runSequence(m *mon.M, s *server, sc *SeqCase, cfg *RunCfg) {
 					if atomic.LoadInt64(&validations) != before.v {
 						fail("binding-recomputed/by-the-handler", fmt.Sprintf("step %d the handler validated the request again", i))
 					}
+					if cb != nil && cb.reads != readsBefore {
+						fail("body-read-again/by-the-handler", fmt.Sprintf("step %d the handler read the body (%d Read calls) of a request value that carries the outcome of its binding", i, cb.reads-readsBefore))
+					}
 				}
 				if now := routeSnap(infoRoute); infoRoute != nil && now != routeFirst {
 					fail("matched-route-not-kept/after-the-handler", fmt.Sprintf("step %d after the handler returned, the route the first RouteInfo answered reads {%s}; it read {%s}", i, now, routeFirst))
@@ -1907,10 +2147,17 @@ func runSequence(m *mon.M, s *server, sc *SeqCase, cfg *RunCfg) {
 				if err != nil {
 					es = err.Error()
 				}
-				bs := fmt.Sprint(bound)
+				bs := boundText(bound)
+				if !bindMemo {
+					ctBeforeBind = ctMemo
+				}
 				if bindMemo {
 					if atomic.LoadInt64(&s.consumed) != before.c {
 						fail("body-consumed-again", fmt.Sprintf("step %d BindAndValidate ran the consumer again", i))
+					}
+					if cb != nil && cb.reads != readsBefore {
+						// (a form body is read by the binding itself, no consumer runs)
+						fail("body-read-again", fmt.Sprintf("step %d BindAndValidate read the body again (%d Read calls) although the request value carries the outcome of its binding", i, cb.reads-readsBefore))
 					}
 					if atomic.LoadInt64(&validations) != before.v {
 						fail("binding-recomputed", fmt.Sprintf("step %d BindAndValidate validated the request again (first outcome: %q)", i, memoBindErr))
@@ -1943,6 +2190,18 @@ func runSequence(m *mon.M, s *server, sc *SeqCase, cfg *RunCfg) {
 					}
 					if body, ok := bm["body"].(map[string]interface{}); ok && sc.Body && fmt.Sprint(body["t"]) != token {
 						fail("bound-values-of-another-request", fmt.Sprintf("step %d bound body %v in the request of token %q", i, body, token))
+					}
+					if isFormOp(sc.Op) && sc.Body {
+						// the form fields this request sent (and its file, in a multipart form)
+						formBound = true
+						if sv, ok := bm["name"].(string); ok && sv != "" && sv != token+"~name" {
+							fail("bound-values-of-another-request/form", fmt.Sprintf("step %d bound name=%q in the request of token %q", i, sv, token))
+						}
+						if f, ok := bm["doc"].(rt.File); ok && f.Data != nil {
+							if txt := fileText(f); txt != "file of "+token+"~doc" {
+								fail("bound-values-of-another-request/form", fmt.Sprintf("step %d bound file %q in the request of token %q", i, txt, token))
+							}
+						}
 					}
 				}
 				bindMemo, memoBindErr, memoBound = true, es, bs
@@ -1978,7 +2237,11 @@ func runSequence(m *mon.M, s *server, sc *SeqCase, cfg *RunCfg) {
 		seen[st] = true
 	}
 	if rep && !sc.quiet {
-		m.NT(fmt.Sprintf("seq|%s|%s|%s|%s|%v|%v|%s|%s|%s|%v|%v|%v", sc.Op, sc.Cred, sc.CT, sc.Accept, sc.Body, sc.Escaped, strings.Join(sc.Steps, ""), sc.N, sc.Before, sc.RewriteCT, sc.Routable, sc.StructBind))
+		fp := fmt.Sprintf("seq|%s|%s|%s|%s|%v|%v|%s|%s|%s|%v|%v|%v", sc.Op, sc.Cred, sc.CT, sc.Accept, sc.Body, sc.Escaped, strings.Join(sc.Steps, ""), sc.N, sc.Before, sc.RewriteCT, sc.Routable, sc.StructBind)
+		if sc.Form != "" || sc.ValidateInFront {
+			fp += fmt.Sprintf("|%s|%v|%v", sc.Form, sc.FormLacks, sc.ValidateInFront)
+		}
+		m.NT(fp)
 	}
 	m.Class("sequence")
 	if sc.Routable {
@@ -2002,6 +2265,15 @@ func runSequence(m *mon.M, s *server, sc *SeqCase, cfg *RunCfg) {
 	if sc.Before != "" {
 		m.Class("sequence-after-other-client")
 	}
+	if formBound {
+		m.Class("sequence-with-a-valid-form-binding/" + sc.Form)
+		if !ctBeforeBind {
+			m.Class("sequence-with-a-valid-form-binding/content-type-not-asked-before")
+		}
+	}
+	if served && sc.ValidateInFront && !sc.Routable {
+		m.Class("sequence-served-behind-a-validating-middleware")
+	}
 	if m.WantSample() {
 		m.Sample(sc)
 	}
@@ -2015,7 +2287,25 @@ func genSeq(r *rand.Rand) *SeqCase {
 			"text/plain;charset=ISO-8859-1", "application/json; charset=utf-8", "Application/JSON; Charset=\"utf-16\"; q=1"}[r.Intn(8)],
 		Accept: []string{"application/json", "text/plain", "", "image/png", "text/plain;q=0.5, application/json;q=0.4"}[r.Intn(5)],
 	}
-	sc.Body = (sc.Op == "postA" || sc.Op == "postV") && r.Intn(4) != 0
+	// a fifth of the sequences are about an operation bound from a form body
+	form := r.Intn(5) == 0
+	if form {
+		sc.Op = []string{"postF", "postF", "postU"}[r.Intn(3)]
+		sc.Form = "multipart"
+		if sc.Op == "postF" && r.Intn(2) == 0 {
+			sc.Form = "urlencoded"
+		}
+		// mostly the header of the form it sends (the others: an outcome that is not valid)
+		if r.Intn(6) != 0 {
+			sc.CT = formContentType(sc.Form)
+		}
+		if r.Intn(3) != 0 {
+			sc.Accept = []string{"application/json", "text/plain", ""}[r.Intn(3)]
+		}
+		sc.FormLacks = r.Intn(6) == 0
+	}
+	sc.Body = (sc.Op == "postA" || sc.Op == "postV") && r.Intn(4) != 0 || form && r.Intn(8) != 0
+	sc.ValidateInFront = r.Intn(3) == 0
 	sc.Escaped = r.Intn(3) == 0
 	if sc.Op == "postV" {
 		sc.N = []string{"", "missing", "bad"}[r.Intn(3)]
@@ -2032,7 +2322,9 @@ func genSeq(r *rand.Rand) *SeqCase {
 	if sc.Cred == "once" {
 		sc.Before = "" // asking the request beforehand would spend its key
 	}
-	sc.RewriteCT = r.Intn(2) == 0
+	// (a form is parsed by net/http off the header of the request value, boundary and all: rewriting the header of
+	// a form request is no dimension of these sequences)
+	sc.RewriteCT = r.Intn(2) == 0 && !form
 	sc.Routable = r.Intn(2) == 0
 	if r.Intn(8) == 0 {
 		// an authentication middleware in front of the whole handler: it gets the route (by a lookup of its own,
